@@ -124,12 +124,12 @@ fn stream_path(dir: &str, kind: &str, p: u64) -> String {
 /// program for C04 (structured) or C03 (bank-switch heavy)
 fn make_program(kind: &str, seed: u64, p: u64) -> (Vec<u8>, String) {
   if kind == "c03" {
-    // sizes chosen so that no register value wraps onto bank 0 (which holds the
-    // driver, not a routine): MBC1's 5-bit register never reaches a multiple of
-    // 32, MBC3's 7-bit register never a multiple of 128
+    // small images make bank numbers wrap (a multiple of the bank count maps
+    // bank 0 into the switchable window: bank 0 carries routines at the entry
+    // offsets too); large ones exercise MBC1's upper bits and mode
     let (ct, rc) = match p % 4 {
-      0 => (0x01u8, 0x04u8), // MBC1, 32 banks
-      1 => (0x13, 0x06),     // MBC3, 128 banks
+      0 => (0x01u8, 0x02u8), // MBC1, 8 banks
+      1 => (0x13, 0x04),     // MBC3, 32 banks
       2 => (0x03, 0x06),     // MBC1, 128 banks (upper bits, mode)
       _ => (0x11, 0x06),     // MBC3, 128 banks
     };
@@ -156,8 +156,9 @@ pub fn bank_program(seed: u64, p: u64, cart_type: u8, rom_code: u8) -> (Vec<u8>,
   for i in 0..image.len() {
     image[i] = [0x76u8, 0x18, 0xfd, 0x00][i & 3];
   }
-  let entries: [u16; 4] = [0x4000, 0x4040, 0x4100, 0x5000];
-  for bank in 1..banks {
+  // entry offsets that are free in bank 0 as well (the driver lives at 0x2000+)
+  let entries: [u16; 5] = [0x4000, 0x4200, 0x4240, 0x4300, 0x5000];
+  for bank in 0..banks {
     for (r, &e) in entries.iter().enumerate() {
       let mut a = Asm::new(e);
       // different lengths and different block structure per bank
@@ -191,7 +192,10 @@ pub fn bank_program(seed: u64, p: u64, cart_type: u8, rom_code: u8) -> (Vec<u8>,
     image[*v] = 0x04; // INC B
     image[*v + 1] = 0xd9; // RETI
   }
-  let mut a = Asm::new(0x0150);
+  image[0x0150] = 0xc3; // JP 0x2000
+  image[0x0151] = 0x00;
+  image[0x0152] = 0x20;
+  let mut a = Asm::new(0x2000);
   a.b(&[0xf3, 0x31, 0xfe, 0xff, 0x0e, 0x00]); // DI; LD SP,FFFE; LD C,0
   a.ld_a(0x01);
   a.ldh_to(0xff);
@@ -202,7 +206,7 @@ pub fn bank_program(seed: u64, p: u64, cart_type: u8, rom_code: u8) -> (Vec<u8>,
   let mut desc = format!("type {:02X} {} banks:", cart_type, banks);
   let mut recent: Vec<u8> = Vec::new();
   for _ in 0..n {
-    if a.here() > 0x0d00 {
+    if a.here() > 0x2d00 {
       break;
     }
     match rng.below(10) {
@@ -260,7 +264,7 @@ pub fn bank_program(seed: u64, p: u64, cart_type: u8, rom_code: u8) -> (Vec<u8>,
     }
   }
   a.jp(main);
-  image[0x0150..0x0150 + a.bytes.len()].copy_from_slice(&a.bytes);
+  image[0x2000..0x2000 + a.bytes.len()].copy_from_slice(&a.bytes);
   support::stamp_header(&mut image, cart_type, rom_code, 0x03);
   (image, desc)
 }
